@@ -35,9 +35,12 @@ def run(ctx):
                 n = max(n, 5)
             y = np.clip(gen_series(rng, n, negative_ok=(it % 2 == 0)), -9000, 9000)
             miss = gap_pattern(rng, n)
-            if it % 3 == 0:                              # all-but-k valid, k = 0..6 (thresholds 2 and 5)
-                miss[:] = True
-                miss[rng.choice(n, size=min(int(rng.integers(0, 7)), n), replace=False)] = False
+            if it % 3 == 0:                              # all-but-k valid, k = 0..6; the pass-through thresholds (2 and 5) come first
+                k = ([5, 2, 4, 6, 1, 3, 0] if kind in ("wcv", "wcvp") else [2, 5, 1, 3, 0, 4, 6])[(it // 3) % 7]
+                n = max(n, k + 1)
+                y = np.clip(gen_series(rng, n, negative_ok=(it % 2 == 0)), -9000, 9000)
+                miss = np.ones(n, dtype=bool)
+                miss[rng.choice(n, size=min(k, n), replace=False)] = False
             if not miss.any():
                 miss[int(rng.integers(0, n))] = True
             params = dict(extra)
